@@ -14,10 +14,10 @@ import (
 	. "github.com/pbenner/autodiff"
 	"github.com/pbenner/autodiff/statistics"
 	"github.com/pbenner/autodiff/statistics/generic"
+	"github.com/pbenner/autodiff/statistics/matrixEstimator"
 	"github.com/pbenner/autodiff/statistics/scalarDistribution"
 	"github.com/pbenner/autodiff/statistics/scalarEstimator"
 	"github.com/pbenner/autodiff/statistics/vectorEstimator"
-	"github.com/pbenner/autodiff/statistics/matrixEstimator"
 	"github.com/pbenner/threadpool"
 	"pgregory.net/rapid"
 	"verifharness/obs"
@@ -191,7 +191,9 @@ type estCase struct {
 	run func(pool threadpool.ThreadPool, y *yieldTable) result
 }
 
-func drawCount(t *rapid.T, label string) float64 { return float64(rapid.IntRange(0, 12).Draw(t, label)) }
+func drawCount(t *rapid.T, label string) float64 {
+	return float64(rapid.IntRange(0, 12).Draw(t, label))
+}
 
 func newScalarEstimator(fam string, a, b float64) statistics.ScalarEstimator {
 	var e statistics.ScalarEstimator
@@ -395,6 +397,9 @@ func drawCase(t *rapid.T) estCase {
 			}
 		}
 		steps := rapid.IntRange(1, 4).Draw(t, "steps")
+		// which parts of the model the Baum-Welch steps re-estimate
+		optE := rapid.IntRange(0, 3).Draw(t, "optimizeEmissions") != 0
+		optT := rapid.IntRange(0, 3).Draw(t, "optimizeTransitions") != 0
 		pi := make([]float64, m)
 		tr := make([]float64, m*m)
 		for i := range pi {
@@ -403,7 +408,7 @@ func drawCase(t *rapid.T) estCase {
 		for i := range tr {
 			tr[i] = 1 + 0.2*float64(i%3)
 		}
-		return estCase{kind: kind, jobs: nseq, desc: fmt.Sprintf("%s states=%d emission=%s a=%v b=%v steps=%d x=%v", kind, m, fam, a, b, steps, seqs),
+		return estCase{kind: kind, jobs: nseq, desc: fmt.Sprintf("%s states=%d emission=%s a=%v b=%v steps=%d optimizeEmissions=%v optimizeTransitions=%v x=%v", kind, m, fam, a, b, steps, optE, optT, seqs),
 			run: func(pool threadpool.ThreadPool, y *yieldTable) result {
 				var trace []float64
 				hook := generic.BaumWelchHook{Value: func(h generic.BasicHmm, i int, likelihood, e float64) {
@@ -432,6 +437,7 @@ func drawCase(t *rapid.T) estCase {
 					if err != nil {
 						return result{err: err.Error()}
 					}
+					est.OptimizeEmissions, est.OptimizeTransitions = optE, optT
 					var xs []ConstVector
 					for _, s := range seqs {
 						col := make([]float64, len(s))
@@ -455,6 +461,7 @@ func drawCase(t *rapid.T) estCase {
 				if err != nil {
 					return result{err: err.Error()}
 				}
+				est.OptimizeEmissions, est.OptimizeTransitions = optE, optT
 				var xs []ConstMatrix
 				for _, s := range seqs {
 					flat := []float64{}
